@@ -178,7 +178,7 @@ class NameGen:
 WEIGHTS = {
     'add_fp': 30, 'add_dir': 14, 'rm_file': 6, 'rm_dir': 4, 'add_link': 8, 'rm_link': 5,
     'add_symlink': 5, 'hide': 3, 'add_eltorito': 3, 'rm_eltorito': 1, 'add_isohybrid': 1,
-    'rm_isohybrid': 1, 'dup_pvd': 0.3, 'restart': 4, 'mass_dirs': 1, 'mass_files': 1,
+    'rm_isohybrid': 1, 'dup_pvd': 0.3, 'restart': 4, 'mass_dirs': 1, 'mass_files': 1, 'add_boot_file': 0,
 }
 
 
@@ -319,6 +319,36 @@ class OpGen:
             op['udf'] = M.join(parent, nm)
         op['route'] = self.ra.choice(('fp', 'fp', 'fp', 'file'))
         self.next_blob += 1
+        return op
+
+    def g_add_boot_file(self):
+        """A file shaped so that it can serve as an El Torito / isohybrid boot image."""
+        r = self.ra
+        kind = r.choice(('isolinux', 'isolinux', 'hd', 'hd', 'plain', 'floppy'))
+        if kind == 'floppy' and r.random() < 0.7:
+            kind = 'isolinux'
+        if kind == 'floppy':
+            size = r.choice((1228800, 1474560, 2949120))
+        else:
+            size = r.choice((512, 513, 1024, 2047, 2048, 2049, 4096, 6000, 8192, 20480, 40000))
+        op = self.g_add_fp(size=size, nss=['iso'] if r.random() < 0.5 else None)
+        if op is None or 'iso' not in op:
+            return None
+        ov = []
+        if kind == 'isolinux':
+            ov.append([0x40, 'fbc07870'])
+        elif kind == 'hd':
+            import struct
+            ptype = r.choice((0x06, 0x0b, 0x0c, 0x83, 0xef, 0x17, 1))
+            heads, secs, cyls = r.choice(((1, 1, 0), (15, 63, 3), (254, 63, 10)))
+            ent = struct.pack('<BBBBBBBBII', r.choice((0x80, 0x80, 0)), 1, 1, 0, ptype, heads, secs | ((cyls >> 2) & 0xc0), cyls & 0xff,
+                              secs, (cyls + 1) * (heads + 1) * secs)
+            slot = r.randrange(4)
+            table = b''.join(ent if k == slot else b'\x00' * 16 for k in range(4))
+            ov.append([446, (table + b'\x55\xaa').hex()])
+            op['_mbr_type'] = ptype
+        op['overlays'] = ov
+        op['bootkind'] = kind
         return op
 
     def g_add_dir(self, nss=None):
@@ -546,8 +576,15 @@ class OpGen:
         b = m.blobs[n.blob]
         op = {'op': 'add_eltorito', 'boot': p, 'media': 'noemul', 'platform': r.choice((0, 0, 0, 1, 2, 0xef)),
               'bootable': r.random() < 0.85, 'load_seg': r.choice((0, 0, 0x7c0, 0x1000)), 'efi': False, 'bit': False}
-        if r.random() < 0.4:
+        has_mbr = any(off == 446 for off, h in b.overlays)
+        if has_mbr and r.random() < 0.7:
+            op['media'] = 'hdemul'
+        elif b.length in (1228800, 1474560, 2949120) and r.random() < 0.8:
+            op['media'] = 'floppy'
+        elif r.random() < 0.4:
             op['load_size'] = r.choice((1, 4, 4, 8, 100))
+        if any(off == 0x40 for off, h in b.overlays) and not m.eltorito and r.random() < 0.7:
+            op['load_size'] = 4       # what isohybrid requires of the initial entry
         if r.random() < 0.3 and b.length >= 64 and not b.bit:
             op['bit'] = True
         if m.eltorito:
@@ -604,6 +641,12 @@ class OpGen:
               'part_offset': r.choice((0, 0, 0, 1, 16)), 'sectors': r.choice((32, 32, 63, 1, r.randint(1, 63))),
               'heads': r.choice((64, 64, 255, 1, r.randint(1, 256))), 'part_type': r.choice((None, None, 0x17, 0x83, 0)),
               'mac': False, 'efi': None}
+        has_efi = any(e.get('efi') for e in m.eltorito['entries'][1:])
+        if has_efi and r.random() < 0.7:
+            op['efi'] = True
+            op['part_type'] = r.choice((None, 0))
+            if r.random() < 0.4 and len([e for e in m.eltorito['entries'][1:] if e.get('efi')]) >= 2:
+                op['mac'] = True
         return op
 
     def g_rm_isohybrid(self):
